@@ -144,6 +144,7 @@ func (in *Interp) callBuiltin(fr *frame, b *ssa.Builtin, args []Value, call *ssa
 			panic(in.goPanic("close of closed channel"))
 		}
 		c.Closed = true
+		in.wakeParked(fr)
 		return nil
 	case "min", "max":
 		acc := args[0].(*Term)
@@ -208,6 +209,7 @@ func (in *Interp) chanSend(c Value, v Value) {
 		panic(&pathEnd{kind: "inconclusive", reason: "send on full channel would block (no scheduler) @ " + in.where()})
 	}
 	ch.Buf = append(ch.Buf, v)
+	in.wakeParked(in.top)
 }
 
 func (in *Interp) chanRecv(c Value, t types.Type) (Value, bool) {
@@ -226,6 +228,9 @@ func (in *Interp) chanRecv(c Value, t types.Type) (Value, bool) {
 	}
 	if ch.Closed {
 		return elem(), false
+	}
+	if in.inGoroutine > 0 {
+		panic(&pathEnd{kind: "infeasible", reason: "goroutine blocked in receive", blocked: true})
 	}
 	panic(&pathEnd{kind: "inconclusive", reason: "receive on empty channel would block (no scheduler) @ " + in.where()})
 }
@@ -291,6 +296,16 @@ func (in *Interp) selectOp(fr *frame, instr *ssa.Select) Value {
 	if !instr.Blocking {
 		return mk(-1, false, -1, nil)
 	}
+	if in.inGoroutine > 0 {
+		panic(&pathEnd{kind: "infeasible", reason: "goroutine blocked in select", blocked: true})
+	}
+	// give parked goroutines a chance to make a case ready
+	if len(in.parked) > 0 && !in.selectRetry {
+		in.selectRetry = true
+		in.wakeParked(fr)
+		in.selectRetry = false
+		return in.selectOp(fr, instr)
+	}
 	panic(&pathEnd{kind: "infeasible", reason: "select would block forever"})
 }
 
@@ -308,5 +323,49 @@ func (in *Interp) spawn(fr *frame, fn Value, args []Value) {
 		in.note("go statement skipped: " + name)
 		return
 	}
+	if !in.runGoroutine(fr, fn, args) {
+		in.parked = append(in.parked, parkedGo{fn: fn, args: args, name: name})
+		in.note("goroutine parked at its first blocking operation: " + name)
+	}
+}
+
+type parkedGo struct {
+	fn   Value
+	args []Value
+	name string
+}
+
+// runGoroutine runs a goroutine body to completion; it returns false when the
+// body blocks (the body is then re-run from the start at a later scheduling
+// point: sound for bodies that do nothing before their first blocking operation).
+func (in *Interp) runGoroutine(fr *frame, fn Value, args []Value) (done bool) {
+	saveTop, saveDepth := in.top, in.depth
+	in.inGoroutine++
+	defer func() {
+		in.inGoroutine--
+		if r := recover(); r != nil {
+			if pe, ok := r.(*pathEnd); ok && pe.blocked {
+				in.top, in.depth = saveTop, saveDepth
+				done = false
+				return
+			}
+			panic(r)
+		}
+	}()
 	in.callValue(fn, args, fr)
+	return true
+}
+
+// wakeParked retries parked goroutines (after a channel was closed or written).
+func (in *Interp) wakeParked(fr *frame) {
+	if len(in.parked) == 0 || in.inGoroutine > 0 {
+		return
+	}
+	pending := in.parked
+	in.parked = nil
+	for _, g := range pending {
+		if !in.runGoroutine(fr, g.fn, g.args) {
+			in.parked = append(in.parked, g)
+		}
+	}
 }
